@@ -93,13 +93,40 @@ def assert_repo_tree() -> None:
         raise SystemExit(f"HARNESS_ERROR: sharepoint2text imported from {f}, expected under {REPO}")
 
 
+_STARTUP_WARNING_FILTERS: list = []
+
+
 def quiet_process() -> None:
     import logging
     import warnings
 
+    if not _STARTUP_WARNING_FILTERS:
+        _STARTUP_WARNING_FILTERS.extend(warnings.filters)  # what a freshly started interpreter filters (see fresh_process_diagnostics)
     logging.disable(logging.CRITICAL)
     warnings.simplefilter("ignore")
     gc.disable()
+
+
+class fresh_process_diagnostics:
+    """Context: logging and warnings behave as in a freshly started interpreter that configured neither (log records of level WARNING and
+    above reach sys.stderr through logging.lastResort, warnings go through the start-up filters) -- the state a command-line run has."""
+
+    def __enter__(self):
+        import logging
+        import warnings
+        self._disable = logging.root.manager.disable
+        logging.disable(logging.NOTSET)
+        self._cw = warnings.catch_warnings()
+        self._cw.__enter__()
+        warnings.filters[:] = list(_STARTUP_WARNING_FILTERS)
+        warnings._filters_mutated()
+        return self
+
+    def __exit__(self, *exc):
+        import logging
+        self._cw.__exit__(*exc)
+        logging.disable(self._disable)
+        return False
 
 
 # --------------------------------------------------------------------------- fork pool
